@@ -220,8 +220,8 @@ def parse(text: str, want=None):
     # the same text (a failed parse leaves nothing behind: no half-filled buffer, cursor or header state)
     import zlib
     _h = zlib.crc32(text.encode("utf-8", "replace"))  # by the text, not by a counter: a replay of the text meets the same sibling
-    if _h % 3 == 1:
-        for bad in damaged_siblings(text, _h // 3):
+    if _h % 3 == 1 or _all_siblings:
+        for bad in ([b_ for k_ in range(6) for b_ in damaged_siblings(text, k_)] if _all_siblings else damaged_siblings(text, _h // 3)):
             try:
                 Chart.from_file(io.StringIO(bad, newline=""), want_tracks=want_arg(want))
             except Exception:  # noqa: BLE001
@@ -242,6 +242,22 @@ def parse(text: str, want=None):
         sink = _tls.sink
         _tls.sink = None
         _tls.last = sink
+
+
+_all_siblings = False
+
+
+class all_siblings:
+    """inside this block every parse is preceded by the parses of *all* damaged siblings of its text (a family that wants the device
+    for each of its texts, not for a third of them; its replays use the same block)"""
+
+    def __enter__(self):
+        global _all_siblings
+        self.old, _all_siblings = _all_siblings, True
+
+    def __exit__(self, *a):
+        global _all_siblings
+        _all_siblings = self.old
 
 
 def damaged_siblings(text: str, k: int):
